@@ -3,19 +3,13 @@ import Mathlib.Tactic.Linarith
 import Mathlib.Tactic.FieldSimp
 import Mathlib.Algebra.Order.Field.Power
 import Mathlib.Data.Rat.Defs
+import Ogen.JsonNumberModel
 /-! Proof probe for C18, number half: the scaled-integer comparison that `equalNumber` (after D2) performs is
     equality of the rational values `±m·10^e`. -/
 namespace JEqNum
 
 /-- value of a parsed spelling -/
 def val (n : Bool) (m : ℕ) (e : ℤ) : ℚ := (if n then -1 else 1) * (m : ℚ) * (10 : ℚ) ^ e
-
-/-- the comparison of the last branch of `numEq` -/
-def cmp (n1 : Bool) (m1 : ℕ) (e1 : ℤ) (n2 : Bool) (m2 : ℕ) (e2 : ℤ) : Bool :=
-  let lo := min e1 e2
-  let v1 := m1 * 10 ^ (e1 - lo).toNat
-  let v2 := m2 * 10 ^ (e2 - lo).toNat
-  if v1 = 0 && v2 = 0 then true else n1 == n2 && v1 == v2
 
 theorem scaled_iff (m1 m2 : ℕ) (e1 e2 : ℤ) :
     ((m1 : ℚ) * (10 : ℚ) ^ e1 = m2 * (10 : ℚ) ^ e2) ↔
